@@ -422,6 +422,17 @@ def rule_clone_independent(rep, pdb):
                 bad.append("%s := %s" % (f["name"], show(t, ctx) if t else None))
         rep.add(key, rule, not bad, fn["body"], "fields ok" if not bad else "fields not cloned from self: %s" % bad,
                 where="%s:%d" % (fn["file"], fn["span"][0]))
+    # an overridden `clone_from` is a second way of cloning: it has to bring over every field too (`*self = ..` or all of them)
+    from .common import field_writes
+    for fn in [f for f in pdb.local_fns() if f.get("impl_trait") == "std::clone::Clone" and f.get("name") == "clone_from" and not f.get("derived")]:
+        tp = adt_of(fn.get("impl_self", ""))
+        a = pdb.adts.get(tp)
+        if a is None:
+            continue
+        w = field_writes(pdb, fn)
+        missing = [f_["name"] for f_ in a["fields"] if f_["name"] not in w and "*" not in w]
+        rep.add("clone-independent/%s/clone_from" % tp, "an overridden clone_from writes every field of the target (a field it forgets keeps the target's old value: the result is not a clone of the source)",
+                not missing, fn["body"], "fields written: %s; not written: %s" % (sorted(w), missing), where="%s:%d" % (fn["file"], fn["span"][0]))
     # Sparse is not Clone (scope of the clause)
     sp = [f for f in pdb.local_fns() if f.get("impl_trait") == "std::clone::Clone" and adt_of(f.get("impl_self", "")) == "sparse::Sparse"]
     rep.info("clone-independent/sparse", "Sparse has %d Clone impl(s) (outside the clone clause when 0)" % len(sp))
